@@ -589,6 +589,27 @@ theorem month_intraday_inverse_false :
   ⟨63083095200000000, 63085737600000000, 63083059200000000, ok_of_okVal (by decide +kernel), ok_of_okVal (by decide +kernel),
     by decide, by decide +kernel⟩
 
+/-! ### the datetimes the business-day block constructs on the way -/
+
+/-- the `'nb'` step succeeds exactly when each of the three datetimes the block constructs (after the weekend roll, after the
+whole weeks, after the remaining days) lies in years 1..9999, and then gives the closed form -/
+theorem b_ok_iff (t n r : Int) :
+    applyStep t (.bday n) = .ok r ↔
+      (∀ k ∈ [if wdOf t > 4 then 7 - wdOf t else 0, (if wdOf t > 4 then 7 - wdOf t else 0) + 7 * (n / 5), bOff (wdOf t) n],
+          InRange (t + k * DAYUS)) ∧ r = t + bOff (wdOf t) n * DAYUS := by
+  rw [bday_ok_iff, bOffPath_eq]
+
+/-- so the code can raise OverflowError although the result exists: 0001-01-03 `'-1b'` passes through `t - 7 days` -/
+theorem b_intermediate_overflow :
+    bumpStr (2 * DAYUS) (tenor (-1) 'b') = .error .other ∧ InRange (2 * DAYUS + bOff (wdOf (2 * DAYUS)) (-1) * DAYUS) := by
+  rw [bumpStr_b]
+  refine ⟨?_, by decide +kernel⟩
+  have h : (match applyStep (2 * DAYUS) (.bday (-1)) with | .error .other => true | _ => false) = true := by decide +kernel
+  revert h
+  cases applyStep (2 * DAYUS) (.bday (-1)) with
+  | ok v => intro h; cases h
+  | error e => cases e <;> intro h <;> first | rfl | cases h
+
 /-! ### K3 exactly: WHEN monotonicity in `t` fails -/
 
 /-- the exact failure set of "monotone in t": for `t₁ ≤ t₂` the images are reversed iff `t₁` lies on a Saturday / Sunday, `t₂`
